@@ -8,10 +8,10 @@ from framework.checklib import CorrResult
 from framework import coqrun
 from harness import arithcorr as ac
 from harness import sumcorr as sc
-from translator import t1_operators, t4_arith
+from translator import t1_operators, t4_arith, t14_arith_gen, t18_sum_gen
 
 ID = 'C07'
-TRANSLATORS = [t1_operators.translate, t4_arith.translate]
+TRANSLATORS = [t1_operators.translate, t4_arith.translate, t14_arith_gen.translate, t18_sum_gen.translate]
 PROPERTY_FILE = 'Properties/C07.v'
 THEOREMS = [
     'C07_every_generator_only_extends', 'C07_extension_meaning', 'C07_adds_meaning', 'C07_basis_sets',
@@ -37,6 +37,7 @@ THEOREMS = [
     'C07_generate_sum_weighted_bits_efficient_works', 'C07_generate_sum_weighted_bits_efficient_total_exact',
     'C07_generate_sum_weighted_bits_naive_works', 'C07_generate_sum_weighted_bits_naive_total_exact',
     'C07_works_hypotheses_satisfiable', 'C07_pow2_m1_needs_nonempty_uuid_labels',
+    'C07_generators_regenerated',
 ]
 PARTIAL = {
     'C07_sum_n_bits_xaig_returns_upto64':
@@ -70,9 +71,16 @@ LEVEL_TEXT = ('every summation generator (add_sum_n_bits in both bases incl. the
               'the operands are gates of the host, the basis resolves, the uuid naming function is injective and the '
               'input is not one on which the implementation itself raises (empty operand lists, see C07.v) - the fuel of '
               'every modelled while loop suffices and the sentinel `break` of the weighted loops is unreachable - so '
-              'every value theorem has an UNCONDITIONAL corollary (C07_*_total_exact); the model is tied to /repo by regenerating the cells (translator T4) and by '
-              'netlist-equality correspondence on every run')
-LEVEL_NOTE = ('Coq kernel + vm_compute; translators T1, T4; correspondence harness (order-preserving label renaming '
+              'every value theorem has an UNCONDITIONAL corollary (C07_*_total_exact); the model is tied to /repo by regenerating the cells (translator T4), by '
+              'regenerating the ALGORITHM of every generator statement by statement (translator T18: add_sum_two_numbers(_with_shift), '
+              'add_sum_n_bits_easy, add_sum_pow2_m1, the dispatcher add_sum_n_bits and both workers incl. the MDFA / Stockmeyer '
+              'scheduler, add_sum_n_weighted_bits(_naive) with their SortedList work lists and sentinel, and the three generate_* '
+              'wrappers) with a proof that each regenerated program runs exactly like the hand model for all arguments '
+              '(C07_generators_regenerated), and by netlist-equality correspondence on every run')
+LEVEL_NOTE = ('Coq kernel + vm_compute; translators T1, T4, T18 (T18 extends T14: `while` loops as fuelled loops with the fuel of '
+              'the hand model, SortedList as the ordered list with the hand model\'s sl_add / sl_of_list, Python ints as Z - the tie '
+              'is stated for shifts and weights >= 0 -, the Python built-ins as the fixed preludes Model/PyPrims.v and '
+              'Model/PyPrimsSum.v); correspondence harness (order-preserving label renaming '
               'new_%032x -> new_%04x); the *_exact theorems are conditional on the model run returning Ok, the *_works / '
               '*_total_exact theorems discharge that condition for every injective uuid naming function (for '
               'add_sum_pow2_m1 additionally: "" is not a uuid label - shown necessary by '
@@ -81,7 +89,10 @@ LEVEL_NOTE = ('Coq kernel + vm_compute; translators T1, T4; correspondence harne
               'repaired code (fixes/D5, D6, D7, D27; D27 corrects the documented bound, the oracle reads the bounds from the docstrings of the tree under test); where Python would leave the weighted loop through the sentinel '
               '`break` with a truncated result the model returns Err (proved unreachable); add_sum_pow2_m1: the value clause asks that the '
               'empty string is not a gate label (filter(None, .) would drop such a label)')
-TECHNIQUE = ('Coq proof: generators as programs of a deep-embedded builder monad over the Circuit model; cells by '
+TECHNIQUE = ('Coq proof: generators as programs of a deep-embedded builder monad over the Circuit model; the generator '
+             'algorithms regenerated from the Python source and proved extensionally equal to the hand model (loop lemmas '
+             'generic in the loop body, lockstep induction on the shared fuel, Python lists as reversed stacks, the sentinel '
+             'of the weighted loops by the bound + measure <= inf invariant); cells by '
              'exhaustive case analysis; scheduling loops by invariants "sum of the level lists + 2 * sum of the next '
              'level + emitted bits = target" with pairs (x, x xor y) counted as x + y; sorted work lists of the weighted '
              'sums by a level-sortedness invariant; gate-type set and gate count carried as an `adds T c c\' g` '
